@@ -483,15 +483,20 @@ class Sim:
                                                  "step_is_first_get_reuse": first_get},
                                                 f"{n} connections to host {k} with limit_per_host={self.Lh} after {ev}"))
             # wake-ups that hand out a slot already promised to a woken waiter of the same host
+            # (several wake-ups can land between two observation points, e.g. when a request blocked in a
+            # trace callback is cancelled and releases its placeholder: count them one after the other)
             now_woken = self.woken_set()
+            promised: dict = {}
+            for u in self.prev_woken:
+                if u in now_woken:
+                    promised[self.key_of[u]] = promised.get(self.key_of[u], 0) + 1
             for t in sorted(now_woken - self.prev_woken):
                 k = self.key_of[t]
-                cap = self.capacity(k, tot, per)
                 if self.Lh > 0:
-                    promised = sum(1 for u in self.prev_woken if u in now_woken and self.key_of[u] == k)
                     host_free = self.Lh - per.get(k, 0)
-                    if host_free - promised < 1:
+                    if host_free - promised.get(k, 0) < 1:
                         self.wasted_wakeups.append({"step": step, "task": t, "host": k})
+                promised[k] = promised.get(k, 0) + 1
             self.prev_woken = now_woken
         self.prev_inuse = (tot, dict(per))
 
